@@ -108,6 +108,19 @@ pub fn multi_sell_day(l: &[GTx]) -> bool {
     m.values().any(|c| *c > 1)
 }
 
+/// known-finding class inexactRatio (D3): the security has a SPLIT or UNSPLIT whose ratio, written as a
+/// reduced fraction of integers, has a prime factor other than 2 and 5 in its numerator — dividing by it
+/// (a claim carried back across a SPLIT; the factor 1/r of an UNSPLIT) does not terminate in decimals
+pub fn inexact_ratio_class(l: &[GTx], ticker: &str) -> bool {
+    l.iter().any(|t| t.ticker.eq_ignore_ascii_case(ticker) && matches!(t.kind, Kind::Split | Kind::Unsplit) && {
+        let mut m = t.a.normalize().mantissa().unsigned_abs();
+        if m == 0 { return false; }
+        while m % 2 == 0 { m /= 2; }
+        while m % 5 == 0 { m /= 5; }
+        m != 1
+    })
+}
+
 pub fn has_kind(l: &[GTx], k: Kind) -> bool {
     l.iter().any(|t| t.kind == k)
 }
